@@ -123,6 +123,7 @@ fn main() {
         "c16chains" => um::c16chains(rest),
         "zstdcat" => util::zstdcat(rest),
         "c20exec" => dictb::c20exec(rest),
+        "c20one" => dictb::c20one(rest),
         "c14rows" => fmt::c14rows(rest),
         "c12dec" => fsex::c12dec(rest),
         "c12enc" => fsex::c12enc(rest),
